@@ -144,6 +144,7 @@ type Run struct {
 	Faults map[CallKey]FaultKind
 	Log    []CallKey
 	Args   []ArgRecord
+	NoLog  bool // free-running race pass: the harness keeps no shared logs
 	fsb    *fsBuilder
 	Rep    func(n *Node) interface{} // mixed graphs: representation of a node where the carrier is free (nil = the strategy's own)
 	Probe  []string                  // precedence probes: which lower-precedence path answered
